@@ -109,6 +109,26 @@ func c35ops() []kvOp {
 				return n, true
 			}})
 	}
+	// "remove every keyword the document lists" as one call, whatever they are (the list becomes empty)
+	ops = append(ops, kvOp{"rmkw(every listed keyword)", func(dir string, in []byte) ([]byte, error) {
+		kws, err := api.Keywords(bytes.NewReader(in), newConf())
+		if err != nil {
+			return nil, err
+		}
+		for i := range kws {
+			kws[i] = strings.TrimSpace(kws[i])
+		}
+		var out bytes.Buffer
+		err = api.RemoveKeywords(bytes.NewReader(in), &out, kws, newConf())
+		return out.Bytes(), err
+	}, func(m kvModel) (kvModel, bool) {
+		if len(m.kw) == 0 {
+			return m, false
+		}
+		n := m.clone()
+		n.kw = map[string]bool{}
+		return n, true
+	}})
 	for _, kv := range [][2]string{{"A", "1"}, {"A", "2"}, {"Ключ", "(x)\\"}, {"E", "\U0001D11E \u00a0z"}} {
 		kv := kv
 		ops = append(ops, kvOp{"addprop(" + kv[0] + "=" + kv[1] + ")", buf(func(rs io.ReadSeeker, w io.Writer) error {
@@ -515,6 +535,8 @@ func c35ForeignDoc() []byte {
 	l3 := d.Add(fmt.Sprintf("<</Limits[%s %s]/Names[%s]>>", docgen.HexStr("z.txt"), docgen.HexStr("z.txt"), mk("z.txt", "foreign z")))
 	mid := d.Add(fmt.Sprintf("<</Limits[%s %s]/Kids[%s %s %s]>>", docgen.HexStr("a.txt"), docgen.HexStr("z.txt"), docgen.Ref(l1), docgen.Ref(l2), docgen.Ref(l3)))
 	top := d.Add(fmt.Sprintf("<</Kids[%s]>>", docgen.Ref(mid)))
-	d.PatchCatalog(fmt.Sprintf("/PageLayout/TwoColumnLeft/PageMode/UseOutlines/ViewerPreferences %s/Names<</EmbeddedFiles %s>>", docgen.Ref(vp), docgen.Ref(top)))
+	// the same keywords once more in the catalog's XMP packet, as most producers write them
+	md := d.AddStream("<</Type/Metadata/Subtype/XML>>", []byte("<?xpacket begin='' id='W5M0MpCehiHzreSzNTczkc9d'?><x:xmpmeta xmlns:x='adobe:ns:meta/'><rdf:RDF xmlns:rdf='http://www.w3.org/1999/02/22-rdf-syntax-ns#'><rdf:Description rdf:about='' xmlns:pdf='http://ns.adobe.com/pdf/1.3/'><pdf:Keywords>alpha; ü €; beta gamma</pdf:Keywords><pdf:Producer>other</pdf:Producer></rdf:Description></rdf:RDF></x:xmpmeta><?xpacket end='w'?>"))
+	d.PatchCatalog(fmt.Sprintf("/PageLayout/TwoColumnLeft/PageMode/UseOutlines/ViewerPreferences %s/Names<</EmbeddedFiles %s>>/Metadata %s", docgen.Ref(vp), docgen.Ref(top), docgen.Ref(md)))
 	return d.Bytes()
 }
